@@ -13,3 +13,4 @@ def run(chk):
     X.replay_items(chk, "C09")
     X.execute_structure(chk, "C09")
     X.item_in_child_context(chk, "C09")
+    X.on_task_complete(chk, "C09", want=("C07",))
